@@ -218,6 +218,10 @@ pub enum RefErr {
     /// built a different tree)
     MissingState(i64),
     AnswerMismatch(String),
+    /// the reference and the implementation parted ways after a float comparison whose margin is
+    /// below the conditioning threshold (e.g. tree weights equal to the last bit: the reference's
+    /// own rounding decides whether the accept is forced): nothing can be judged
+    IllConditioned(f64, String),
 }
 
 struct Tree {
@@ -245,6 +249,8 @@ struct Run<'a> {
     e0: f64,
     max_energy_error: f64,
     out: RefResult,
+    /// copy of the smallest margin that survives an early error return
+    sink: &'a std::cell::Cell<f64>,
 }
 
 enum Sub {
@@ -271,6 +277,7 @@ impl<'a> Run<'a> {
     fn margin(&mut self, m: f64) {
         if m < self.out.min_margin {
             self.out.min_margin = m;
+            self.sink.set(m);
         }
     }
     fn uturn(&mut self, a: i64, b: i64) -> Result<bool, RefErr> {
@@ -413,8 +420,17 @@ pub fn effective_depths(o: &NutsOptions, step_size: f64) -> (u64, u64) {
 }
 
 pub fn reference(rec: &Recorded, answers: &[Ans], opt: &RefOptions) -> Result<RefResult, RefErr> {
+    let sink = std::cell::Cell::new(f64::INFINITY);
+    match reference_raw(rec, answers, opt, &sink) {
+        Err(e @ (RefErr::MissingState(_) | RefErr::AnswerMismatch(_))) if sink.get() < 1e-7 => Err(RefErr::IllConditioned(sink.get(), format!("{e:?}"))),
+        other => other,
+    }
+}
+
+fn reference_raw<'a>(rec: &'a Recorded, answers: &'a [Ans], opt: &RefOptions, sink: &'a std::cell::Cell<f64>) -> Result<RefResult, RefErr> {
     let s0 = rec.states.get(&0).ok_or(RefErr::MissingState(0))?;
     let mut run = Run {
+        sink,
         rec,
         answers,
         pos: 0,
